@@ -157,7 +157,8 @@ def kaldi_filters(ctx, R="R-C15-kaldi-filters"):
     ev = SymEval(prog, init).run()
     f0 = ev.snap  # unused
     first = [n for n in init.body_nodes() if isinstance(n, ast.Assign) and astq.is_self_attr(n.targets[0], "self", "_filts")]
-    ok = len(first) == 1 and astq.eq_text(first[0].value, "[np.ones(1,dtype=np.float64)]")
+    ok = len(first) == 1 and astq.in_texts(first[0].value, ("[np.ones(1,dtype=np.float64)]", "[np.ones(1)]", "[np.ones(1,dtype=float)]", "[np.ones(1,np.float64)]",
+                                                               "[np.array([1.0])]", "[np.ones((1,),dtype=np.float64)]", "[np.ones((1,))]"))
     ctx.check(ok, R, init, first[0] if first else MISSING(init.node), "the filter list starts with [1]", "filter list starts as %s" % (astq.text(first[0].value) if first else None))
     base = ev.env.get("delta_filter")
     ctx.need(base is not None, R, "delta_filter not found")
